@@ -31,7 +31,7 @@ ASSUMPTIONS = [
     'symbolic runs use an integer-time subclass of task.Clock/DelayedCall (same code, int 0 instead of float 0.0); native replays use the stock task.Clock',
 ]
 BOUNDS = {
-    'quick': {'names': 2, 'steps': 2, 'expiry_offset_s': [-10, MAX_OFF], 'advance_s': [0, MAX_ADV], 'line_forms': 5},
+    'quick': {'names': 2, 'steps': '2 (all kinds) and 3 (timed line, any line, clock advance)', 'expiry_offset_s': [-10, MAX_OFF], 'advance_s': [0, MAX_ADV], 'line_forms': 5},
     'thorough': {'names': 2, 'steps': 3, 'expiry_offset_s': [-10, MAX_OFF], 'advance_s': [0, MAX_ADV], 'line_forms': 5},
 }
 OUTSIDE = ['non-UTC local time', 'sub-second expiries', 'more than 3 steps / 2 names', 'expiry offsets beyond 3 days']
@@ -110,7 +110,7 @@ def _history(k, kinds, names, vals):
                 want_expired[n] += 1
 
     for i in range(k):
-        kind, ni, v = kinds[i], names[i], vals[i]
+        kind, ni, v = kinds[i], api.pick(names[i], 0, 1), vals[i]
         name = NAMES[ni]
         if kind == 0:
             assume(0 <= v <= MAX_ADV)
@@ -199,7 +199,10 @@ def c20_history2(k1: int, k2: int, n1: int, n2: int, v1: int, v2: int) -> str:
     return _history(2, [k1, k2], [n1, n2], [v1, v2])
 
 
-@cond(thorough=dict(parts=_K3, budget=240))
+_K3Q = [{'k1': a, 'k2': b, 'k3': 0} for a in (1, 2) for b in range(1, 6)]
+
+
+@cond(quick=dict(parts=_K3Q, budget=60), thorough=dict(parts=_K3, budget=240))
 def c20_history3(k1: int, k2: int, k3: int, n1: int, n2: int, n3: int, v1: int, v2: int, v3: int) -> str:
     """3-step histories"""
     assume(0 <= n1 <= 1 and 0 <= n2 <= 1 and 0 <= n3 <= 1)
